@@ -132,6 +132,10 @@ w('All of the remaining ones end *undecided*: the rule says it cannot read the r
   'of the state codec). None is reported as a violation. They are kept in the corpus as they are: an undecided verdict on them is '
   'the honest answer of a static rule that would otherwise have to guess, and a maintainer sees the construct and the rule in the '
   'message (`ANALYSIS-ERROR ... undecided <rule> <file:line> ... [construct]`).\n')
+w('The last full evaluation of the 200 refactorings still found one false violation (C15-V2: `Trajectory.split` cutting the parts as '
+  '`self[window.head(minsize)]` through a NamedTuple was reported by C19.R4 as overlapping ranges). The rule was corrected to compare '
+  'the operands of `start + width` by value (start of the same part, minimum width over the parts) and to answer undecided for a width '
+  'of unknown origin; C19 was then re-evaluated on all 440 stored changes (`tools/reeval_prop.py C19`: only that entry changed).\n')
 w('What the three rounds show: the first-evaluation silent rate on *unseen* refactorings went 16/74 → 16/60 (a harder batch: the '
   'prompt asked for dataclasses, generators, vectorisation) → 34/60, and definite false violations on unseen refactorings went from '
   'the majority of alarms in batch T to 7 of 60 in batch V; all of those were removed by making the rule decide on values or answer '
